@@ -181,6 +181,18 @@ PROPS["C08"] = {
     "level_note": LEVEL_NOTE_NOISE,
 }
 
+PROPS["C02"] = {
+    "pkgs": ["mailbox"],
+    "level": "fault_enumeration",
+    "quick_budget": 70, "thorough_budget": 1800,
+    "rule": "Enumerated: every single-bit flip of one full wire record (18-byte encrypted header, body, 16-byte MAC) for body sizes {0,1,17,65535} at record index {0,499,500} (around the first key rotation) in XX and KK sessions, each flip against a fresh copy of the reader's cipher state (quick: body bits of the 65535-byte record every 101st bit; thorough: all). Sampled: sessions exposed through Machine.ReadMessage/WriteMessage+Flush, NoiseGrpcConn or NoiseConn, 1..12 and 0..7 records per direction (sizes 0..2000, occasionally 65535), scripts of 1-4 edits from {drop, duplicate, swap, replay-earlier, reflect-from-other-direction, truncate, inject, bit flip, splice} at record boundaries and mid-record offsets applied to one or both directions; readers run as tasks until the first error and four more attempts. Oracle: returned plaintext is a byte prefix of what was written; no successful read after the first error; untouched streams are delivered completely." + SIG_RULE,
+    "assumptions": ["the adversary works on the ciphertext produced by the authentic writer (it holds no keys)"],
+    "components": NOISE_COMPONENTS,
+    "expected_probes": ["c02.bit-flips", "c02.intact-prefix-delivered"],
+    "level_text": "Fault enumeration: all single-bit corruptions of a record are enumerated against the real AEAD stream code at and around the key-rotation boundary; multi-edit adversary scripts are seeded samples.",
+    "level_note": LEVEL_NOTE_NOISE,
+}
+
 # Properties that are pure functions of their input: no schedule, clock, fault
 # or interleaving enters them, so deterministic simulation has nothing to decide.
 NOT_APPLICABLE = {
